@@ -624,6 +624,11 @@ func (n node) compact(lo uint64) int {
 			// Skip over this key. Don't copy it.
 			continue
 		}
+		if n.val(right) < lo {
+			// The max key is only retained for routing: it must not keep serving
+			// its deleted value (0 means "no value" everywhere in the tree).
+			n.setAt(valOffset(right), 0)
+		}
 		// Valid data. Copy it from right to left. Advance left.
 		if left != right {
 			copy(n.data(left), n.data(right))
